@@ -502,6 +502,8 @@ def run(cx, tier='quick'):
         '`Self: Supertrait` for auto; explicit predicates returned unchanged; none when disabled).')
     check_headers(cx, rep)
     check_bound_tables(cx, rep)
+    from .scope import check_scopes
+    check_scopes(cx, rep, None)
     rep.floor('BOUND-MAP', 6)
     rep.floor('BOUND-USE', 5)
     rep.assumptions += ['syn::Generics::split_for_impl reproduces parameters with inline bounds minus defaults and the where-clause']
